@@ -120,10 +120,10 @@ def single_root(ctx, rule='C07.single-root'):
     """bucket views are created from the committed header root only when the transaction begins; everything else goes through the live root"""
     res = []
     F = ctx.facts
-    fm = F.fn('InnerBucket::from_meta')
-    bf = ctx.A.get('Tx::new')
+    fm = ctx.A.get('view-from-meta')
+    bf = ctx.A.get('begin-role')
     if fm is None or bf is None:
-        return [unresolved(rule, 'InnerBucket::from_meta / Tx::new')]
+        return [unresolved(rule, 'view-from-meta / begin-role')]
     sites = all_call_sites(F, fm)
     f = floor(rule, 'constructions of bucket views (from_meta)', len(sites), 2)
     if f:
